@@ -15,6 +15,11 @@ correspondence:  DeepSearch(obj, item, **mode) on generated nested objects x ite
                  with their exact text str(obj); invalid regular expressions give the third outcome `reerror`; cyclic
                  objects (a list / dict / instance holding itself or an ancestor) run as extension stream "Cyclic" with
                  atom items: the model gets the tree with XRef at the back references.
+source tie:      harness/translate/searchdispatch.py regenerates a Gallina model of DeepSearch.__init__ / __report / __skip_this /
+                 __search* from /repo's current search.py on every run (coq/srctie/SearchGen.v); coq/srctie/SearchGenEquiv.v proves
+                 it equal to the hand model for all arguments and transfers the main theorems (Search/NOTES_srctie.md).  When the
+                 tie is not intact: on_source_tie_break evaluates generated vs hand model inside Coq on ~3 900 inputs and feeds the
+                 differing ones to the case machinery below; the streams run at thorough size.
 grep front end:  ONE grep(item, **options) instance used with | two or three times (same / different objects);
                  every use must equal DeepSearch(obj, item, **options) and the model (a pure function).
 direct oracle:   an independent reference search written from the documentation (enumerate
@@ -60,7 +65,11 @@ TRUSTED = ["regular expressions (the compiled item and exclude_regex_paths), str
            "str(obj) of a float outside the half-integers / Decimal / date / datetime / timedelta and the universe number it is == to are "
            "inputs of the model computed by Python; re_ok (re.compile accepts the lower-cased item) is an oracle",
            "ip ranges, numpy, user classes with __eq__ / __iter__ / __getattr__ / sub-classes are outside the universe; cyclic objects "
-           "are modelled for atom items only (XRef = a child that is one of its own ancestors); shared sub-objects are unfolded"]
+           "are modelled for atom items only (XRef = a child that is one of its own ancestors); shared sub-objects are unfolded",
+           "source tie `searchdispatch` (second tie, in addition to the correspondence): the ast->Gallina translator "
+           "harness/translate/searchdispatch.py with its encoding rules E1-E9 / skip rules S1-S4 and the Python primitives of "
+           "Search/SearchStmt.v (isinstance on the model's universes, ==, in, %-formatting, d[k], ...) are trusted for the translated "
+           "methods of DeepSearch only; coq/srctie/SearchGenEquiv.v (generated = hand model, all arguments) is re-checked on every run"]
 ASSUMPTIONS = ["floats as dictionary keys / set members / ITEMS are half-integers of small magnitude; as searched leaves any float",
                "the item is a value of the shared universe (atom or plain container) or a pre-compiled pattern",
                "container items are searched in tree shaped objects only (cyclic objects: atom items)"]
@@ -1560,26 +1569,188 @@ def grep_reuse(ctx, n, with_objs=False):
     ctx.coq_cases("search_grep" + ("_objects" if with_objs else ""), HEADER, cases, shard=250, label="grep_instance_reuse")
 
 
+# ---------------------------------------------------------------------------
+# source tie (harness/translate/searchdispatch.py -> coq/srctie/SearchGen.v, proofs coq/srctie/SearchGenEquiv.v)
+# ---------------------------------------------------------------------------
+
+SOURCE_TIES = [{"name": "searchdispatch", "translator": "searchdispatch", "gen_module": "SearchGen", "equiv": ["SearchGenEquiv"],
+                "needs": ["Search.SearchStmtFacts", "Search.SearchExtract", "Search.SearchShow"],
+                "sources": ["deepdiff/search.py", "deepdiff/helper.py"],
+                "fragment": "class DeepSearch: __init__ (normalisation of item, call of __search), __report, __skip_this, __search_str, "
+                            "__search_numbers, __search_dict, __search_iterable, __search_obj, __search_tuple, __search (dispatcher)"}]
+
+# the generated model rendered exactly like SearchShow.run_search renders the hand-written one
+TIE_RUN = r"""
+From DD Require Import Search.SearchStmt.
+From DDGen Require Import SearchGen.
+Definition g_reports (v2 : bool) (rk : pystr) (ops : list top) : sx :=
+  if v2 then SL (map (fun kv => SL [sx_str (fst kv); sx_xvalue (snd kv)]) (ops_dict rk ops))
+  else SL (map sx_str (ops_set rk ops)).
+Definition g_run_search (vl : Z) (c : config)
+           (re_ok : bool) (re_tbl excl_tbl : list (pystr * bool)) (b_tbl l_tbl : list (pystr * pystr)) (re_text : pystr)
+           (str_attrs bytes_attrs : list pystr) (item : value) (obj : xvalue) : sx :=
+  let o := mkOracles (tbl_lower l_tbl) (tbl_str b_tbl) (tbl_bool re_tbl) re_ok (tbl_bool excl_tbl) re_text str_attrs bytes_attrs in
+  match g_init o c vl obj item with
+  | GRaise => SA "raise"%string
+  | GReErr => SA "reerror"%string
+  | GOk ops => let v2 := (vl >=? 2)%Z in
+               SL [SA "ok"%string; g_reports v2 rk_paths ops; g_reports v2 rk_values ops; SL (map sx_str (ops_list rk_unprocessed ops))]
+  end.
+"""
+
+
+def _tie_pairs(ctx, name, pairs, shard=200, timeout=900):
+    """pairs: [(generated_expr, hand_expr)], both of type sx; returns the indices on which they evaluate differently
+    (None when the comparison itself could not be compiled)."""
+    from concurrent.futures import ThreadPoolExecutor
+    import os
+    gen_dir = os.path.join(ctx.scratch, "srctie")
+    files = []
+    shards = [pairs[i:i + shard] for i in range(0, len(pairs), shard)]
+    for k, sh_ in enumerate(shards):
+        fn = os.path.join(ctx.scratch, "tiediff_%s_%d.v" % (name, k))
+        with open(fn, "w") as f:
+            f.write("From Coq Require Import List String ZArith NArith Bool.\nImport ListNotations.\nFrom DD Require Import Base.Sx.\n")
+            f.write(HEADER + "\n" + TIE_RUN + "\nLocal Open Scope string_scope.\n")
+            f.write("Definition cases : list (sx * sx) := [\n")
+            f.write(";\n".join("(%s,\n %s)" % (g, h) for g, h in sh_))
+            f.write("\n].\nEval vm_compute in run_cases cases.\n")
+        files.append(fn)
+
+    def one(fn):
+        return core.sh(["coqc", "-Q", core.THEORIES, "DD", "-Q", gen_dir, "DDGen", fn], timeout=timeout, cwd=ctx.scratch)
+    with ThreadPoolExecutor(max_workers=core.NCPU) as ex:
+        results = list(ex.map(one, files))
+    bad = []
+    for k, (rc, out) in enumerate(results):
+        m = re.search(r'"BEGIN\n(.*)END"', out, re.S)
+        if rc != 0 or not m:
+            return None, out[-800:]
+        for line in m.group(1).replace('""', '"').splitlines():
+            if line.strip():
+                bad.append(k * shard + int(line.partition("\t")[0]))
+    return bad, ""
+
+
+def _tie_inputs(ctx):
+    """(obj, item, cfg) triples for the generated-vs-hand differencing: the module's small exhaustive universe (values of
+    depth <= 2) x the fixed item list x mode combinations, then random objects (plain, named tuples, number-like leaves),
+    then class instances (judged as extension stream)."""
+    rng = core.random.Random(ctx.seed + 16)
+    out = []
+    objs = V.small_universe(atoms=(None, 1, "Ab"), maxlen=2, depth=2, kinds="LD")
+    objs += [("Ab", 1), (1, ["a", "Ab"]), {"a", 1}, frozenset(["Ab"]), [("a",), {"k": ("Ab", 1.5)}], {"Ab": ("a", {"b"})}, "Ab", 1, 1.5, None, b"ab",
+             [b"ab", "ab"], {1.5: "1.5", "k": 2}, [P("a", 1)], {"k": P(1, "Ab")}, [True, 1.0, "1"]]
+    items = ["a", "A", "b", "ab", "Ab", 1, "1", True, None, 1.5, "1.5", "root", "[0]", "'Ab'", b"a", b"ab", [1], ("a",), "k"]
+    modes = [dict(verbose_level=vl, case_sensitive=cs_, match_string=ms, strict_checking=st, use_regexp=rx)
+             for vl in (1, 2) for cs_ in (False, True) for ms in (False, True) for st in (True, False) for rx in (False, True)]
+    combos = [(o_, i_) for o_ in objs for i_ in items]
+    rng.shuffle(combos)
+    for n, (o_, i_) in enumerate(combos[:2500]):
+        cfg = full_cfg(modes[n % len(modes)] if n % 3 else rng.choice(modes))
+        r = rng.random()
+        if r < 0.15:
+            cfg["exclude_types"] = [rng.choice(["str", "int", "float", "list", "dict", "bool", "tuple"])]
+        elif r < 0.3:
+            locs = locations(o_)
+            if len(locs) > 1:
+                cfg["exclude_paths"] = [path_text(rng.choice(locs)[0])]
+        elif r < 0.36:
+            cfg["exclude_regex_paths"] = [rng.choice(EXCL_RX)]
+        if cfg["use_regexp"] and isinstance(i_, str):
+            cfg = dict(cfg)
+        out.append((copy.deepcopy(o_), i_, cfg, False))
+    for with_objs, n, ext in (("named", 250, False), ("nums", 250, False), (False, 500, False), (True, 400, True)):
+        made = 0
+        while made < n:
+            obj = gen_obj(rng, rng.choice([1, 2, 2, 3]), rng.choice([2, 3]), rng.random() < 0.15, with_objs)
+            locs = locations(obj)
+            cfg = gen_cfg(rng, locs)
+            cfg.pop("shape", None)
+            item = gen_item(rng, obj, locs, cfg["use_regexp"])
+            if isinstance(item, re.Pattern):
+                continue
+            out.append((obj, item, cfg, ext))
+            made += 1
+    return out
+
+
+def on_source_tie_break(ctx, name, rec):
+    """core.source_tie_step calls this when the source tie is not intact.  When the generated model compiled (the
+    equivalence proof is what broke), generated and hand-written model are evaluated inside Coq on the inputs of
+    _tie_inputs; the smallest inputs on which they differ go through the ordinary case machinery (implementation run,
+    direct oracle, correspondence with the hand model): a property failure -> ctx.fail, a model / implementation
+    disagreement -> correspondence break.  Never a failure by itself."""
+    info = {"status": rec.get("status")}
+    if rec.get("status") not in ("equivalence-proof-broken", "not-closed", "hygiene"):
+        info["searched"] = "nothing inside Coq (no generated model to evaluate); the streams of run() use thorough-size budgets"
+        return info
+    ctx.ensure_built(HEADER + "\nFrom DD Require Import Search.SearchStmt.")
+    inputs = _tie_inputs(ctx)
+    pairs, kept = [], []
+    for obj, item, cfg, ext in inputs:
+        BACK.clear()
+        try:
+            h = model_case(obj, item, cfg, locations(obj))
+        except Exception:
+            continue
+        head, _v2, rest = h.split(" ", 2)
+        pairs.append(("g_run_search (%d)%%Z %s" % (cfg["verbose_level"], rest), h))
+        kept.append((obj, item, cfg, ext))
+    bad, err = _tie_pairs(ctx, name, pairs)
+    info["generated_vs_hand_model"] = {"inputs": len(pairs), "small_universe_and_random": True}
+    if bad is None:
+        info["searched"] = "the differencing file did not compile: " + err
+        return info
+    info["generated_vs_hand_model"]["differing"] = len(bad)
+    if not bad:
+        info["searched"] = "%d inputs evaluated in Coq, generated and hand-written model agree on all of them" % len(pairs)
+        return info
+    diff = sorted((kept[i] for i in bad), key=lambda t: (t[3], len(repr(t[0])) + len(repr(t[1])) + len(repr(sorted(t[2].items())))))
+    first = diff[0]
+    info["first_differing_input"] = {"obj": repr(first[0]), "item": repr(first[1]), "options": fmt_kw(first[2])}
+    plain = [t for t in diff if not t[3]][:12]
+    objs = [t for t in diff if t[3]][:6]
+    f0, b0 = len(ctx.failures), len(ctx.breaks)
+    cases = []
+    for obj, item, cfg, _ in plain:
+        do_case(ctx, obj, item, cfg, cases, "source-tie-diff")
+    ctx.coq_cases("search_tiediff", HEADER, cases, label="source_tie_diff")
+    if objs:
+        with ctx.extension("Obj"):
+            cases = []
+            for obj, item, cfg, _ in objs:
+                do_case(ctx, obj, item, cfg, cases, "source-tie-diff-objects")
+            ctx.coq_cases("search_tiediff_objects", HEADER, cases, label="source_tie_diff_objects")
+    info["replayed_on_implementation"] = {"plain": len(plain), "objects": len(objs),
+                                          "new_oracle_failures": len(ctx.failures) - f0, "new_breaks": len(ctx.breaks) - b0}
+    info["searched"] = "%d inputs evaluated in Coq, %d differ; the smallest were run on the implementation with the direct oracle" % (len(pairs), len(bad))
+    return info
+
+
 def run(ctx):
+    # a source tie that is not intact: thorough-size budgets for the streams that exercise the translated fragment
+    # (not when the tie hook has already produced a failing input: nothing more to look for)
+    big = ctx.thorough or (ctx.tie_broken("searchdispatch") and not ctx.failures)
     witnesses(ctx)
-    grep_reuse(ctx, 1500 if ctx.thorough else 250)
-    random_cases(ctx, 12000 if ctx.thorough else 2300)
+    grep_reuse(ctx, 1500 if big else 250)
+    random_cases(ctx, 12000 if big else 2300)
     # named tuples are tuples (the property's quantifier names tuples): part of the property's own streams
-    random_cases(ctx, 2500 if ctx.thorough else 400, with_objs="named", name="search_named", tag="random-namedtuples")
+    random_cases(ctx, 2500 if big else 400, with_objs="named", name="search_named", tag="random-namedtuples")
     named_examples(ctx)
     # numbers outside the half-integers (0.1, 1e-07, 1e+16, nan, inf, -0.0) and Decimals: exact text through str(obj)
-    random_cases(ctx, 2500 if ctx.thorough else 400, with_objs="nums", name="search_numbers", tag="random-numbers")
-    universe_cases(ctx, 12000 if ctx.thorough else 600)
+    random_cases(ctx, 2500 if big else 400, with_objs="nums", name="search_numbers", tag="random-numbers")
+    universe_cases(ctx, 12000 if big else 600)
     # extension: class instances / named tuples / unreadable objects (`unprocessed`) inside the same model and theorems.
     # The property's quantifier speaks about dict / list / tuple / str / numbers / None only: what fails here is
     # recorded in the evidence file (EXTENSION-NOTE), never a violation (core.Ctx.extension)
     with ctx.extension("Obj"):
         object_examples(ctx)
-        random_cases(ctx, 6000 if ctx.thorough else 1000, with_objs=True, name="search_objects", tag="random-objects")
-        grep_reuse(ctx, 300 if ctx.thorough else 60, with_objs=True)
+        random_cases(ctx, 6000 if big else 1000, with_objs=True, name="search_objects", tag="random-objects")
+        grep_reuse(ctx, 300 if big else 60, with_objs=True)
     # extension: cyclic objects (a container that holds itself or an ancestor: the parents_ids guard), atom items
     with ctx.extension("Cyclic"):
-        cyclic_cases(ctx, 1500 if ctx.thorough else 250)
+        cyclic_cases(ctx, 1500 if big else 250)
 
 
 def _eval(text):
